@@ -343,14 +343,24 @@ def task_write_pka(pr, repo):
             ex.contracts['propka.output.' + n] = (lambda n: lambda ex, ctx_, fi_, a, k, so: calls.setdefault(n, (a, k)) and 'S')(n)
         ex.contracts[SEC] = lambda ex, ctx_, fi_, a, k, so: calls.setdefault('fold', (a, k)) and 'F'
         ex.contracts['propka.output.get_charge_profile_section'] = lambda ex, ctx_, fi_, a, k, so: calls.setdefault('charge', (a, k)) and 'C'
-        ex.call_function(repo.func('propka.output.write_pka'), [mol, record('P', None)], {'filename': 'x.pka', 'conformation': 'AVR',
-                                                                                           'reference': 'low-pH', 'verbose': False})
+        P_ = record('P', None)
+        ex.call_function(repo.func('propka.output.write_pka'), [mol, P_], {'filename': 'x.pka', 'conformation': '2A',
+                                                                            'reference': 'low-pH', 'verbose': False})
         f, c = calls.get('fold'), calls.get('charge')
+
+        def arg(call, idx, name):
+            a_, k_ = call
+            return a_[idx] if len(a_) > idx else k_.get(name, 'NOT GIVEN')
+        tables = [calls.get('get_determinant_section'), calls.get('get_summary_section')]
+        ctx.oblige('GW: the determinant table and the summary of the written file are those of the conformation asked for, with the '
+                   'parameter set handed to write_pka',
+                   all(t is not None and arg(t, 0, 'protein') is mol and arg(t, 1, 'conformation') == '2A' and arg(t, 2, 'parameters') is P_
+                       for t in tables))
         written = [e for e in ctx.events if e[0] == 'write_text']
         ctx.oblige('GW: write_pka prints the folding profile for the requested window, conformation and reference, the charge profile '
                    'for the same conformation, and writes one file',
-                   f is not None and c is not None and f[1].get('window') is opts.attrs['window'] and f[1].get('conformation') == 'AVR'
-                   and f[1].get('reference') == 'low-pH' and c[1].get('conformation') == 'AVR' and f[0][0] is mol and c[0][0] is mol
+                   f is not None and c is not None and f[1].get('window') is opts.attrs['window'] and f[1].get('conformation') == '2A'
+                   and f[1].get('reference') == 'low-pH' and c[1].get('conformation') == '2A' and f[0][0] is mol and c[0][0] is mol
                    and len(written) == 1)
     pr.explore(ex, t_write, 'write_pka plumbing')
 
